@@ -309,6 +309,7 @@ public:
                     my_segment_table_allocation_failed.store(true, std::memory_order_relaxed);
                 });
             } else {
+                __TBB_VERIF_POINT(vp_cv_wait_segment, this, 4);
                 atomic_backoff backoff;
                 do {
                     if (my_segment_table_allocation_failed.load(std::memory_order_relaxed)) {
